@@ -173,7 +173,7 @@ theorem Res.setPending {s0 s s' : St} {l : Name} (h : Res s0 s) (p : Pending s0 
 theorem ifPrologue_spec (g : Globals) (cond : IfCond) (dup isElse : Bool) (le : Option Name) (s : St) (hi : LInv s) :
     let p := ifPrologue g cond dup isElse le s
     Res s p.2.2 ∧ Pending s p.2.2 p.1 ∧ (le = none → Pending s p.2.2 p.2.1 ∧ p.2.1 ≠ p.1) ∧ (∀ l, le = some l → p.2.1 = l) := by
-  unfold ifPrologue
+  unfold ifPrologue ifLabels
   dsimp only
   have g0 : Good s (if dup then s.addErr .ifElseDuplicated "if-condition".toList 1 0 else s) := by
     cases dup
